@@ -7,6 +7,7 @@ package c16
 import (
 	"context"
 	"encoding/json"
+	"errors"
 	"fmt"
 	"math/rand/v2"
 	"sort"
@@ -46,13 +47,14 @@ type nameCase struct {
 type tcase struct {
 	Idx         int         `json:"case"`
 	AllowLookup bool        `json:"allow_lookup"`
+	CacheFails  bool        `json:"cache_writes_fail"`
 	Names       []*nameCase `json:"names"`
 }
 
 const eps = 500 * time.Microsecond
 
 func gen(rng *rand.Rand, idx int) *tcase {
-	c := &tcase{Idx: idx, AllowLookup: rng.IntN(4) != 0}
+	c := &tcase{Idx: idx, AllowLookup: rng.IntN(4) != 0, CacheFails: rng.IntN(5) == 0}
 	nn := 1 + rng.IntN(2)
 	for i := 0; i < nn; i++ {
 		nc := &nameCase{Name: []string{"undeclared/one", "undeclared/two"}[i]}
@@ -101,7 +103,7 @@ func TestC16(t *testing.T) {
 	if r.Only < 0 {
 		stress(t, r)
 	}
-	r.Require("lookups_disabled_cases", "lookups_enabled_cases", "shared_flights", "failed_lookups", "hang_bounded_callers", "retry_after_foreign_cancel", "successful_lookups", "stress_lookups")
+	r.Require("lookups_disabled_cases", "lookups_enabled_cases", "shared_flights", "failed_lookups", "hang_bounded_callers", "retry_after_foreign_cancel", "successful_lookups", "stress_lookups", "cases_with_failing_cache")
 	r.Rule("seeded cases: AllowLookup on/off; 1-2 undeclared names each with a service mode (ok, slow D, fail, fail-then-ok, hang for ever, not found) and 1-6 callers (LookupSecret / NewUpdater / Fields.Apply) with start offsets and contexts (background, deadline 1 s/1 min/10 min, cancelled at a random instant). Distinct = (AllowLookup, service mode, number of callers, set of context kinds, set of caller outcomes)")
 }
 
@@ -147,6 +149,11 @@ func runCase(t *testing.T, r *evid.Run, c *tcase) {
 			return fakesvc.Behaviour{}
 		}
 		cache := &fakesvc.MonCache{}
+		if c.CacheFails {
+			// a cache that cannot be written must not turn a successful lookup into a failure
+			cache.WriteErr = func(int) error { return errors.New("injected cache write failure") }
+			r.Count("cases_with_failing_cache", 1)
+		}
 		st, err := setec.NewStore(context.Background(), setec.StoreConfig{Client: svc, Secrets: []string{"known"}, AllowLookup: c.AllowLookup,
 			Cache: cache, PollInterval: -1, Logf: func(string, ...any) {}})
 		if err != nil {
@@ -357,8 +364,10 @@ func runCase(t *testing.T, r *evid.Run, c *tcase) {
 			if len(nc.Callers) > 1 && len(reqs) < len(nc.Callers) && len(reqs) > 0 {
 				r.Count("shared_flights", 1)
 			}
-			// healthy service and all callers present before the first reply: exactly one request
-			if nc.Mode == "ok" || nc.Mode == "slow" {
+			// healthy service whose reply takes (virtual) time, and all callers present before it arrives:
+			// everybody joins the one request in flight. (With an instantaneous reply a second caller may
+			// legitimately start its own request after the first has completed, at the same virtual instant.)
+			if nc.Mode == "slow" {
 				allEarly, allAlive := true, true
 				firstEnd := time.Duration(0)
 				if len(reqs) > 0 {
@@ -385,7 +394,7 @@ func runCase(t *testing.T, r *evid.Run, c *tcase) {
 				if h == nil || string(h.Get()) != string(value(nc.Name)) {
 					fail("looked-up-secret-not-installed", fmt.Sprintf("%q was fetched successfully but Secret() does not serve it", nc.Name), nil)
 				}
-				if !inCache {
+				if !inCache && !c.CacheFails {
 					fail("looked-up-secret-not-cached", fmt.Sprintf("%q was fetched successfully but the cache does not hold it", nc.Name), map[string]any{"cache": string(cache.Last())})
 				}
 				before := svc.NumRequests()
